@@ -335,7 +335,7 @@ func c14Instantiate(shape string, r *core.Rng, words []string) string {
 func c14() *core.Check {
 	return &core.Check{
 		ID: "C14",
-		Rule: "G_benign against the LIVE keyword table: word = [A-Za-z_][A-Za-z0-9_]* from a frozen list (4000 English words in three capitalisations + identifier shapes of length 1-40), also behind 28 identifier prefixes (sp_, xp_, pg_, is_, ... one family per sequence) and mixed with marker-like words (sp_password, near-keywords) that is not a key, component or dotted prefix of a key; number = [0-9]+ incl. 31/32/33-digit runs; (1) the token-class abstraction exhaustively: all 62 sequences over {n,1} of length 1-5 must be absent from the live blacklist; (2) every sequence shape over {word,number} up to length 7 joined by single spaces, 64 (thorough 16384) random instantiations each; (3) e-mail / decimal / sentence shapes incl. apostrophes, near-keyword words (one letter glued to a keyword) and random identifiers (those not dropped by the one-time calibration), sampled; (4) 24 M (thorough 300 M) inputs built from distinct random identifiers between numbers; (5) ~30 000 keyword look-alikes (digits for look-alike letters, one letter dropped / doubled / swapped, common suffixes; those that are not table words) in six frames; (6) one identifier of 2^k+d letters (k up to 16, d = -34..34, also 65568+d) whose tail spells a keyword; multi-word keys glued into one identifier; base64 / hex spellings of injection strings; (7) benign bodies of 128 KiB-16 MiB (thorough 64 MiB). Oracle: IsSQLi = (false,\"\"). " +
+		Rule: "G_benign against the LIVE keyword table: word = [A-Za-z_][A-Za-z0-9_]* from a frozen list (4000 English words in three capitalisations + identifier shapes of length 1-40), also behind 28 identifier prefixes (sp_, xp_, pg_, is_, ... one family per sequence) and mixed with marker-like words (sp_password, near-keywords) that is not a key, component or dotted prefix of a key; number = [0-9]+ incl. 31/32/33-digit runs; (1) the token-class abstraction exhaustively: all 62 sequences over {n,1} of length 1-5 must be absent from the live blacklist; (2) every sequence shape over {word,number} up to length 7 joined by single spaces, 64 (thorough 16384) random instantiations each; (3) e-mail / decimal / sentence shapes incl. apostrophes, near-keyword words (one letter glued to a keyword) and random identifiers (those not dropped by the one-time calibration), sampled; (4) 24 M (thorough 300 M) inputs built from distinct random identifiers between numbers; (5) ~30 000 keyword look-alikes (digits for look-alike letters, one letter dropped / doubled / swapped, common suffixes; those that are not table words) in six frames; (6) one identifier of 2^k+d letters (k up to 16, d = -34..34, also 65568+d) whose tail spells a keyword; multi-word keys glued into one identifier; base64 / hex spellings of injection strings; (7) benign bodies of 128 KiB-16 MiB (thorough 64 MiB); (8) long benign texts whose first and last 2^k bytes would join into a keyword. Oracle: IsSQLi = (false,\"\"). " +
 			"Non-trivial = every instance; distinct by string. The per-context fingerprints are recorded to show that the n/1 abstraction is what the implementation produced.",
 		Exhaustive: false,
 		Plan: func(tier string, seed uint64) []core.Unit {
@@ -357,6 +357,7 @@ func c14() *core.Check {
 			us = append(us, gen.RangeUnits("lookalike", uint64(len(c14Lookalikes())), 2000, "")...)
 			us = append(us, gen.RangeUnits("longword", uint64(len(c14LongBounds)*69), 23, "")...)
 			us = append(us, gen.RangeUnits("huge", uint64(len(hugeSizes(tier))*3), 1, tier)...)
+			us = append(us, gen.RangeUnits("splice", uint64(len(c14SpliceCuts)*len(c14SpliceWords)), 4, "")...)
 			return us
 		},
 		Gen: func(w *core.Worker, u core.Unit, emit func(core.Case)) {
@@ -434,6 +435,33 @@ func c14() *core.Check {
 						}
 						emit(core.Case{In: word + " 25", Kind: "longword"})
 						emit(core.Case{In: "7 " + word + " 3", Kind: "longword"})
+					}
+				}
+			case "splice":
+				// long benign text in which the first c bytes end with the head of a
+				// keyword inside one word and the last c bytes start with its tail
+				// inside another ("... lime ... habit ..." around c = 4096): a scanner
+				// that looks only at both ends and joins them reads "limit"
+				for i := u.Lo; i < u.Hi; i++ {
+					c := c14SpliceCuts[int(i)/len(c14SpliceWords)]
+					kw := c14SpliceWords[int(i)%len(c14SpliceWords)]
+					for cut := 1; cut < len(kw); cut++ {
+						w1 := kw[:cut] + "qz" // first word: keyword head + letters
+						w2 := "zq" + kw[cut:] // second word: letters + keyword tail
+						if !c14Admitted(w1) || !c14Admitted(w2) {
+							continue
+						}
+						for _, total := range []int{2*c + 7, 2*c + 100, 3 * c} {
+							// head: digits, blank, w1 so that kw[:cut] ends at offset c
+							headPad := c - cut - 1
+							tailKeep := c - len(kw[cut:])
+							mid := total - c - (len(w1) - cut) - len(w2) + len(kw[cut:]) - c
+							if headPad < 1 || tailKeep < 2 || mid < 1 {
+								continue
+							}
+							in := strings.Repeat("7", headPad) + " " + w1 + " " + strings.Repeat("8", mid) + " " + w2 + " " + strings.Repeat("9", tailKeep-1)
+							emit(core.Case{In: in, Kind: "splice"})
+						}
 					}
 				}
 			case "huge":
@@ -555,6 +583,9 @@ func hugeSizes(tier string) []int {
 	}
 	return s
 }
+
+var c14SpliceCuts = []int{256, 512, 1024, 2048, 4096, 8192, 16384, 32768, 65536}
+var c14SpliceWords = []string{"limit", "union", "having", "select", "and", "or", "like", "between"}
 
 var c14LongBounds = []int{32, 64, 128, 256, 1024, 4096, 32768, 65536, 65568}
 
@@ -877,6 +908,9 @@ func c19() *core.Check {
 				// attributes: each occurrence is judged on its own)
 				doc = "<a " + strings.ToLower(strings.ReplaceAll(a, "\x00", "")) + "=/home " + a + "=" + q + val + q + ">"
 			}
+			// ordinary markup in front of the tag (the verdict must come from the
+			// URL value: nothing in these prefixes is black)
+			doc = []string{"", "", "<i>x</i >", "<b></b\n>text ", "<p/>", "<p>one</p><p>two</p >", "<br/><td a=b></td c='d'>", "</>"}[int(c.A/11)%8] + doc
 			if !li.IsXSS(doc) {
 				w.Violate("scheme-not-recognised", fmt.Sprintf("IsXSS(%q) = false although the value decodes to a script-capable scheme\n%s", trunc(doc, 200), explainXSS(doc)))
 				return
